@@ -216,3 +216,211 @@ Proof.
     - split; [exact Js|]. split; [cbn [fst]; lia|]. intros k c Hk. discriminate. }
   apply HQ.
 Qed.
+
+(** * update_heads keeps every reference visible, provided no reference sits on a commit with a
+    rewrite record *)
+Lemma anc_bottom g a d : anc g a d -> a = d \/ exists c, In a (parents g c) /\ anc g c d.
+Proof.
+  induction 1 as [x|a p d Hp Ha IH]; [now left|right].
+  destruct IH as [->|[c [Hc Hcd]]].
+  - exists d. split; [assumption|constructor].
+  - exists c. split; [assumption|]. eapply anc_step; eassumption.
+Qed.
+
+Lemma update_heads_cover g heads keys x : wf_dag g ->
+  let vis := ancs g heads in
+  let old := filter (fun k => memn k vis) keys in
+  let to_add := filter (fun p => negb (memn p old)) (flat_map (parents g) old) in
+  let hs' := fold_left (fun hs p => ins p hs) to_add (fold_left (fun hs k => remn k hs) keys heads) in
+  covered g heads x -> ~ In x keys -> covered g hs' x.
+Proof.
+  intros W vis old to_add hs' [h [Hh Ha]] Nk.
+  assert (G : forall n d, h - d = n -> anc g d h -> ~ In d keys -> covered g hs' d).
+  { induction n as [n IH] using lt_wf_ind. intros d En Hd Nd.
+    destruct (anc_bottom g d h Hd) as [->|[c [Hc Hch]]].
+    - exists h. split; [|constructor]. unfold hs'. apply fold_ins_In. left. apply fold_remn_In. auto.
+    - assert (d < c) by now apply W. pose proof (anc_le g c h W Hch).
+      destruct (in_dec Nat.eq_dec c keys) as [Ck|Ck].
+      + exists d. split; [|constructor]. unfold hs'. apply fold_ins_In. right. unfold to_add. apply filter_In.
+        assert (Co : In c old).
+        { unfold old. apply filter_In. split; [assumption|]. apply memn_In. unfold vis.
+          apply ancs_spec; [assumption|]. exists h. auto. }
+        split; [apply in_flat_map; exists c; auto|].
+        apply negb_true_iff, memn_false. intros Do. unfold old in Do. apply filter_In in Do. apply Nd. apply Do.
+      + destruct (IH (h - c)) with (d := c) as [h' [Hh' Ha']]; [lia|reflexivity|assumption|assumption|].
+        exists h'. split; [assumption|]. apply (anc_trans g d c h'); [apply anc_parent; exact Hc|exact Ha']. }
+  apply (G (h - x) x eq_refl Ha Nk).
+Qed.
+
+Definition refs_clear (st : state) : Prop :=
+  (forall name t c, In (name, t) (v_bms (s_v st)) -> In c (added_ids t) -> pm_get (s_pm st) c = None) /\
+  (forall ws c, In (ws, c) (v_wcs (s_v st)) -> pm_get (s_pm st) c = None).
+
+Lemma J_update_heads st : J st -> refs_clear st -> J (update_heads st).
+Proof.
+  intros Js [RB RW]. unfold update_heads.
+  set (g := pg (s_g st)). set (keys := pm_keys (s_pm st)).
+  set (vis := ancs g (v_heads (s_v st))).
+  set (old := filter (fun k => memn k vis) keys).
+  set (to_add := filter (fun p => negb (memn p old)) (flat_map (parents g) old)).
+  set (hs := fold_left (fun hs k => remn k hs) keys (v_heads (s_v st))).
+  set (hs' := fold_left (fun hs p => ins p hs) to_add hs).
+  assert (Cov : forall x, covered g (v_heads (s_v st)) x -> pm_get (s_pm st) x = None -> covered g hs' x).
+  { intros x Hc Hn. apply (update_heads_cover g (v_heads (s_v st)) keys x (j_wf _ Js) Hc).
+    intros Hk. apply In_pm_keys_get in Hk. destruct Hk as [r Hr]. congruence. }
+  assert (HJ : J (set_view st (set_heads (s_v st) hs' false))); [|exact (proj1 (J_normalize _ HJ))].
+  destruct Js. constructor; cbn [set_view s_g s_v s_pm set_heads v_heads v_bms v_wcs v_norm]; auto.
+  - unfold hs'. apply fold_ins_sorted. unfold hs. now apply fold_remn_sorted.
+  - intros h Hh. unfold hs' in Hh. apply fold_ins_In in Hh. destruct Hh as [Hh|Hh].
+    + unfold hs in Hh. apply fold_remn_In in Hh. apply j_heads. apply Hh.
+    + unfold to_add in Hh. apply filter_In in Hh. destruct Hh as [Hh _]. apply in_flat_map in Hh.
+      destruct Hh as [k [Hk Hp]]. unfold old in Hk. apply filter_In in Hk. destruct Hk as [Hk _].
+      unfold keys in Hk. apply In_pm_keys_get in Hk. destruct Hk as [r Hr]. apply pm_get_In in Hr.
+      destruct (j_pm k r Hr) as [Lk _]. apply j_wf in Hp. lia.
+  - intros name t c Hb Hc. destruct (j_bms name t c Hb Hc) as [A B]. split; [assumption|].
+    apply Cov; [assumption|]. eapply RB; eassumption.
+  - intros ws c Hw. destruct (j_wcs ws c Hw) as [A B]. split; [assumption|].
+    apply Cov; [assumption|]. eapply RW; eassumption.
+  - discriminate.
+Qed.
+
+(** * rebase_descendants keeps the invariant *)
+Definition rebase_before_heads ord (s : state) (o : rebase_opts) : res state :=
+  do s1 <- rebase_loop_with ord s o;
+  do mapping <- resolve_rewrite_mapping (s_pm s1) (fun _ => true);
+  do sA <- update_local_bookmarks s1 mapping (o_delete_abandoned o);
+  update_wc_commits sA mapping.
+
+Lemma rebase_descendants_split ord s o :
+  rebase_descendants_with ord s o =
+  do sB <- rebase_before_heads ord s o; Ok (set_pm (update_heads sB) []).
+Proof.
+  unfold rebase_descendants_with, rebase_before_heads, update_rewritten_references.
+  destruct (rebase_loop_with ord s o) as [s1| | |]; cbn [bind]; try reflexivity.
+  destruct (resolve_rewrite_mapping _ _) as [m| | |]; cbn [bind]; try reflexivity.
+  destruct (update_local_bookmarks _ _ _) as [sA| | |]; cbn [bind]; try reflexivity.
+  destruct (update_wc_commits _ _) as [sB| | |]; cbn [bind]; reflexivity.
+Qed.
+
+Theorem J_rebase_descendants ord s o s' :
+  J s -> bms_odd s ->
+  (forall sB, rebase_before_heads ord s o = Ok sB -> refs_clear sB) ->
+  rebase_descendants_with ord s o = Ok s' ->
+  J s' /\ bms_odd s' /\ s_pm s' = [].
+Proof.
+  intros Js Os RC H. rewrite rebase_descendants_split in H.
+  destruct (rebase_before_heads ord s o) as [sB| | |] eqn:EB; cbn [bind] in H; try discriminate.
+  apply Ok_inj in H. subst s'. specialize (RC sB eq_refl).
+  unfold rebase_before_heads in EB.
+  destruct (rebase_loop_with ord s o) as [s1| | |] eqn:EL; cbn [bind] in EB; try discriminate.
+  destruct (resolve_rewrite_mapping (s_pm s1) (fun _ => true)) as [mapping| | |] eqn:EM; cbn [bind] in EB; try discriminate.
+  destruct (update_local_bookmarks s1 mapping (o_delete_abandoned o)) as [sA| | |] eqn:EA; cbn [bind] in EB; try discriminate.
+  pose proof (J_rebase_loop ord s o s1 Js EL) as J1.
+  assert (O1 : bms_odd s1).
+  { unfold bms_odd. unfold rebase_loop_with in EL. destruct (ord _ _ _) as [order| | |]; cbn [bind] in EL; try discriminate.
+    rewrite (rebase_fold_bms _ _ _ _ EL). exact Os. }
+  assert (MR : forall k nids, aget Nat.eqb k mapping = Some nids -> nids <> [] /\ forall z, In z nids -> z < length (s_g s1)).
+  { intros k nids Hk. destruct (resolve_mapping_spec _ _ _ EM k nids Hk) as [Kk R].
+    destruct (rewritten_ids_with_result _ _ _ _ R) as [NE F]. split; [assumption|].
+    intros z Hz. destruct (F z Hz) as [Fz [[<-|[]]|[k' [r [Hin Ht]]]]].
+    - exfalso. apply Kk. exact Fz.
+    - destruct (j_pm _ J1 k' r Hin) as [_ Rg]. exact (Rg z Ht). }
+  destruct (J_update_local_bookmarks s1 mapping _ sA J1 O1 (fun k nids Hk => proj2 (MR k nids Hk)) EA)
+    as [JA [OA [GA [PA WA]]]].
+  assert (MRA : forall k nids, aget Nat.eqb k mapping = Some nids -> nids <> [] /\ forall z, In z nids -> z < length (s_g sA)).
+  { intros k nids Hk. rewrite GA. exact (MR k nids Hk). }
+  destruct (J_update_wc_commits sA mapping sB JA MRA EB) as [JB BB].
+  pose proof (J_update_heads sB JB RC) as JH.
+  split; [|split].
+  - destruct JH. constructor; cbn [set_pm s_g s_v s_pm]; auto.
+    + intros k r [].
+    + exact I.
+  - unfold bms_odd. cbn [set_pm s_v]. rewrite update_heads_bms, BB. exact OA.
+  - reflexivity.
+Qed.
+
+(** * All operations *)
+Definition refs_clearb (st : state) : bool :=
+  forallb (fun b : N * target => forallb (fun c => negb (memn c (pm_keys (s_pm st)))) (added_ids (snd b))) (v_bms (s_v st))
+  && forallb (fun w : N * nat => negb (memn (snd w) (pm_keys (s_pm st)))) (v_wcs (s_v st)).
+
+Lemma refs_clearb_spec st : refs_clearb st = true -> refs_clear st.
+Proof.
+  unfold refs_clearb, refs_clear. rewrite andb_true_iff, !forallb_forall. intros [A B]. split.
+  - intros name t c Hb Hc. specialize (A _ Hb). cbn [snd] in A. rewrite forallb_forall in A.
+    specialize (A c Hc). apply negb_true_iff, memn_false in A.
+    destruct (pm_get (s_pm st) c) eqn:G; [|reflexivity]. exfalso. apply A. apply In_pm_keys_get. eauto.
+  - intros ws c Hw. specialize (B _ Hw). cbn [snd] in B. apply negb_true_iff, memn_false in B.
+    destruct (pm_get (s_pm st) c) eqn:G; [|reflexivity]. exfalso. apply B. apply In_pm_keys_get. eauto.
+Qed.
+
+(** Guards. For descendant rebasing: after the bookmark and working-copy updates no bookmark adds and
+    no workspace sits on a commit that has a rewrite record (what C11_bookmarks_follow and
+    C11_wc_follows establish for unconflicted bookmarks and every workspace; evaluated on the
+    implementation's output by the C11 checker). *)
+Definition op_okb (s : state) (o : op) : bool :=
+  match o with
+  | OSetBookmark _ t => basic_op_okb s o && Nat.odd (length t)
+  | ORebase ro =>
+      match rebase_before_heads order_commits_for_rebase s ro with
+      | Ok sB => refs_clearb sB
+      | _ => true
+      end
+  | _ => basic_op_okb s o || record_op_okb s o
+  end.
+
+Lemma step_bms_basic s o s' : basic_op_okb s o = true -> step s o = Ok s' ->
+  match o with OSetBookmark _ _ => True | _ => v_bms (s_v s') = v_bms (s_v s) end.
+Proof.
+  intros G H. destruct o; cbn [basic_op_okb] in G; try discriminate; cbn [step] in H; try exact I.
+  - destruct ps; [discriminate|]. apply Ok_inj in H. subst s'. apply write_commit_bms.
+  - apply Ok_inj in H. subst s'. apply add_heads_fields.
+  - destruct (edit s ws c) eqn:E; [|discriminate]. apply Ok_inj in H. subst s'. eapply edit_bms; eassumption.
+  - unfold check_out in H. destruct (write_commit s (fresh_commit (s_g s) [c] 0 true) None) as [s1 n] eqn:EW.
+    destruct (edit s1 ws n) eqn:E; [|discriminate]. apply Ok_inj in H. subst s'.
+    rewrite (edit_bms _ _ _ _ E). change s1 with (fst (s1, n)). rewrite <- EW. apply write_commit_bms.
+  - apply Ok_inj in H. subst s'. unfold remove_workspace. cbn [set_view s_v v_bms]. apply maybe_abandon_bms.
+  - destruct (s_pm s); [|discriminate]. apply Ok_inj in H. subst s'. apply normalize_fields.
+Qed.
+
+Lemma step_bms_record s o s' : record_op_okb s o = true -> step s o = Ok s' -> v_bms (s_v s') = v_bms (s_v s).
+Proof.
+  intros G H. destruct o; cbn [record_op_okb] in G; try discriminate; cbn [step] in H.
+  - destruct (old =? 0); [discriminate|].
+    destruct (match ps with Some l => l | None => c_parents (getc (s_g s) old) end); [discriminate|].
+    apply Ok_inj in H. subst s'. apply write_commit_bms.
+  - destruct (old =? 0); [discriminate|]. apply Ok_inj in H. now subst s'.
+  - destruct (old =? 0); [discriminate|]. apply Ok_inj in H. now subst s'.
+  - destruct (old =? 0); [discriminate|]. apply Ok_inj in H. now subst s'.
+  - destruct (old =? 0); [discriminate|]. apply Ok_inj in H. now subst s'.
+Qed.
+
+Inductive reach_all : state -> Prop :=
+| ra_init : reach_all init_state
+| ra_step s o s' : reach_all s -> op_okb s o = true -> step s o = Ok s' -> reach_all s'.
+
+Theorem reach_all_inv s : reach_all s -> J s /\ bms_odd s.
+Proof.
+  induction 1 as [|s o s' _ [Js Os] G H].
+  - split; [apply J_init|]. intros name t [].
+  - destruct o; cbn [op_okb] in G.
+    all: try (apply orb_true_iff in G; destruct G as [G|G];
+              [split; [eapply J_step_basic; eassumption|];
+               pose proof (step_bms_basic _ _ _ G H) as B; cbn beta iota in B; unfold bms_odd; rewrite B; exact Os
+              |split; [eapply J_step_record; eassumption|];
+               unfold bms_odd; rewrite (step_bms_record _ _ _ G H); exact Os]).
+    + (* OSetBookmark *)
+      apply andb_true_iff in G. destruct G as [G Od]. split; [eapply J_step_basic; eassumption|].
+      cbn [step] in H. apply Ok_inj in H. subst s'. now apply bms_odd_set.
+    + (* ORebase *)
+      cbn [step] in H. change (rebase_descendants s o) with (rebase_descendants_with order_commits_for_rebase s o) in H.
+      destruct (J_rebase_descendants order_commits_for_rebase s o s' Js Os) as [A [B _]]; [|exact H|auto].
+      intros sB EB. rewrite EB in G. now apply refs_clearb_spec.
+Qed.
+
+Theorem commit_inv_all s s' :
+  reach_all s -> step s OCommit = Ok s' -> Inv (pg (s_g s')) (s_v s').
+Proof.
+  intros R H. destruct (reach_all_inv s R) as [Js _]. cbn [step] in H.
+  destruct (s_pm s); [|discriminate]. apply Ok_inj in H. subst s'. now apply commit_Inv.
+Qed.
